@@ -341,6 +341,11 @@ func finalC06(w *World) {
 			s.Probe("audit.sct-found")
 		}
 	}
+	// the library's own verifying client stack must agree with the oracle
+	finalClientAudit(w, final)
+	if s.Violated() {
+		return
+	}
 	// (c) entries come with audit paths that verify against served roots
 	for k, st := range w.sths {
 		if st.Size == 0 || k%3 != 0 {
